@@ -355,7 +355,7 @@ theorem epoch_line (hdr : List HdrRec) (e : Epoch) (h : e.wf hdr = true) (n : Na
   simp only [parseObservationEpoch, getv, Values.get, List.find?, String.reduceBEq, Option.map_some, req, pure, Except.pure, bind,
     Except.bind, (intCell_facts hy).2.2.1, (intCell_facts hy).2.2.2, (intCell_facts hmo).2.2.2, (intCell_facts hd).2.2.2,
     (intCell_facts hh).2.2.2, (intCell_facts hmi).2.2.2, (numCell_facts hs).2.2, (intCell_facts hf).2.2.2, floatOpt_cell hc,
-    Bool.not_true, Bool.false_eq_true, if_false, List.head?_nil, Option.map_none, Option.getD_none]
+    Bool.not_true, Bool.false_eq_true, if_false, ne_eq, not_true_eq_false]
   congr 3
   simp only [info, kept, obsSec, EpochInfo.mk.injEq, true_and, and_true]
   cases s.rate with
@@ -683,59 +683,6 @@ theorem sat_line (hdr : List HdrRec) (r : SatRec) (hr : r.wf hdr = true) (n : Na
 
 theorem label_len : headerSpecs.all (fun sp => decide (sp.label.toList.length ≤ 20)) = true := by decide +kernel
 
-/-- **a special record of an event epoch is ignored**: a header record whose label starts with a letter is no
-observation line, and `_parse_observation_epoch` rejects it (no numeric year, or a letter in column 61) -/
-theorem special_line (kc : String × List Str) (h : specialOk kc = true) (n : Nat) (s : State) :
-    parseLine obsParser (rstrip (rec kc.1 kc.2)) n s = .ok s := by
-  simp only [specialOk, Bool.and_eq_true, okCells, decide_eq_true_eq] at h
-  obtain ⟨⟨⟨hk, ⟨⟨_, hf⟩, _⟩⟩, hal⟩, _⟩ := h
-  obtain ⟨sp, hsp⟩ := Option.isSome_iff_exists.mp hk
-  have hs := spec_eq hsp
-  have hmem := findKind_mem hsp
-  unfold rec
-  rw [hs] at hf hal ⊢
-  have hl20 : sp.label.toList.length ≤ 20 := by
-    have := List.all_eq_true.mp label_len sp hmem
-    simpa using this
-  have hcom := slice_label sp hmem kc.2 hf 20
-  rw [List.take_of_length_le hl20] at hcom
-  have hone := slice_label sp hmem kc.2 hf 1
-  have hok := List.all_eq_true.mp specs_ok sp hmem
-  simp only [specOk, Bool.and_eq_true, decide_eq_true_eq, Bool.not_eq_eq_eq_not, Bool.not_true] at hok
-  have hclean := hok.1.2
-  have hidem : rstrip (rstrip (renderLabelled sp kc.2)) = rstrip (renderLabelled sp kc.2) := rstrip_idem _
-  generalize rstrip (renderLabelled sp kc.2) = line at hcom hone hidem ⊢
-  cases hlab : sp.label.toList with
-  | nil => rw [hlab] at hal; simp at hal
-  | cons c rest =>
-    rw [hlab] at hal hcom hone hclean
-    have hca : c.isAlpha = true := by simpa using hal
-    have h60 : alphaAt line 60 = true := by
-      unfold alphaAt
-      have : Text.slice 60 (60 + 1) line = [c] := by simpa using hone
-      rw [this]; exact hca
-    have hcomv : strip (sliceRaw ⟨"comment", 60, 80⟩ line) = c :: rest := by
-      show strip (Text.slice 60 80 line) = _
-      rw [show (80 : Nat) = 60 + 20 from rfl, hcom]
-      exact strip_of_clean hclean
-    unfold parseLine
-    have h1 : obsParser.skipLine line = false := rfl
-    have h2 : obsParser.label (rstrip line) n = "False" := by
-      show obsLabel (rstrip line) = "False"
-      rw [hidem]
-      simp [obsLabel, h60]
-    have h3 : obsParser.defs = Midgard.Generated.Rinex3ObsCols.records := rfl
-    rw [h1, h2, h3, epoch_def]
-    simp only [Bool.false_eq_true, if_false, LabelDef.values, List.map_cons, List.map_nil, List.append_nil, StripOpt.apply, hcomv]
-    show handle "_parse_observation_epoch" _ s = _
-    simp only [handle, String.reduceEq, if_false, if_true]
-    simp only [parseObservationEpoch, getv, Values.get, List.find?, String.reduceBEq, Option.map_some, req, bind, Except.bind,
-      pure, Except.pure]
-    by_cases hn : isNumeric (strip (sliceRaw ⟨"year", 2, 6⟩ line)) = true
-    · simp [hn, hca]
-    · simp [hn]
-
-
 theorem rec_rstrip (k : String) (sp : RecSpec) (hk : findKind k = some sp) (cells : List Str) : rstrip (rec k cells) = rec k cells := by
   unfold rec
   rw [spec_eq hk]
@@ -745,6 +692,67 @@ theorem rec_rstrip (k : String) (sp : RecSpec) (hk : findKind k = some sp) (cell
     intro h; have := hok.2; rw [h] at this; simp at this
   unfold renderLabelled renderCells
   exact labelled_rstrip _ _ _ hok.1.2 hne'
+
+/-- **a special record of an event epoch is ignored**: it is no observation line (column 61 holds a letter, or the
+first column does not), and `_parse_observation_epoch` rejects it (no numeric year, or text in columns 61–80) -/
+theorem special_line (kc : String × List Str) (h : specialOk kc = true) (n : Nat) (s : State) :
+    parseLine obsParser (rstrip (rec kc.1 kc.2)) n s = .ok s := by
+  simp only [specialOk, Bool.and_eq_true, okCells, decide_eq_true_eq] at h
+  obtain ⟨⟨⟨hk, ⟨⟨_, hf⟩, _⟩⟩, hal⟩, _⟩ := h
+  obtain ⟨sp, hsp⟩ := Option.isSome_iff_exists.mp hk
+  have hs := spec_eq hsp
+  have hmem := findKind_mem hsp
+  have hrr := rec_rstrip kc.1 sp hsp kc.2
+  rw [hrr] at *
+  have hrr2 : rstrip (rec kc.1 kc.2) = rec kc.1 kc.2 := rec_rstrip kc.1 sp hsp kc.2
+  have hrec : rec kc.1 kc.2 = renderLabelled sp kc.2 := by unfold rec; rw [hs]
+  rw [hs] at hf hal
+  have hl20 : sp.label.toList.length ≤ 20 := by
+    have := List.all_eq_true.mp label_len sp hmem
+    simpa using this
+  have hcom := slice_label sp hmem kc.2 hf 20
+  rw [List.take_of_length_le hl20] at hcom
+  have hone := slice_label sp hmem kc.2 hf 1
+  have hok := List.all_eq_true.mp specs_ok sp hmem
+  simp only [specOk, Bool.and_eq_true, decide_eq_true_eq, Bool.not_eq_eq_eq_not, Bool.not_true] at hok
+  have hclean := hok.1.2
+  have hne : sp.label.toList ≠ [] := by
+    intro e; have := hok.2; rw [e] at this; simp at this
+  rw [← hrec, hrr2] at hcom hone
+  generalize rec kc.1 kc.2 = line at hcom hone hrr2 hal ⊢
+  have hlabF : obsLabel line = "False" := by
+    rcases Bool.or_eq_true _ _ |>.mp hal with ha | ha
+    · cases hlab : sp.label.toList with
+      | nil => exact absurd hlab hne
+      | cons c rest =>
+        rw [hlab] at ha hone
+        have hca : c.isAlpha = true := by simpa using ha
+        have h60 : alphaAt line 60 = true := by
+          unfold alphaAt
+          have : Text.slice 60 (60 + 1) line = [c] := by simpa using hone
+          rw [this]; exact hca
+        simp [obsLabel, h60]
+    · have h0 : alphaAt line 0 = false := by simpa using ha
+      simp [obsLabel, h0]
+  have hcomv : strip (sliceRaw ⟨"comment", 60, 80⟩ line) = sp.label.toList := by
+    show strip (Text.slice 60 80 line) = _
+    rw [show (80 : Nat) = 60 + 20 from rfl, hcom]
+    exact strip_of_clean hclean
+  unfold parseLine
+  have h1 : obsParser.skipLine line = false := rfl
+  have h2 : obsParser.label (rstrip line) n = "False" := by
+    show obsLabel (rstrip line) = "False"
+    rw [hrr2]; exact hlabF
+  have h3 : obsParser.defs = Midgard.Generated.Rinex3ObsCols.records := rfl
+  rw [h1, h2, h3, epoch_def]
+  simp only [Bool.false_eq_true, if_false, LabelDef.values, List.map_cons, List.map_nil, List.append_nil, StripOpt.apply, hcomv]
+  show handle "_parse_observation_epoch" _ s = _
+  simp only [handle, String.reduceEq, if_false, if_true]
+  simp only [parseObservationEpoch, getv, Values.get, List.find?, String.reduceBEq, Option.map_some, req, bind, Except.bind,
+    pure, Except.pure]
+  by_cases hn : isNumeric (strip (sliceRaw ⟨"year", 2, 6⟩ line)) = true
+  · simp [hn, hne]
+  · simp [hn]
 
 theorem startsWith_append (x y : Str) (hx : x ≠ []) : startsWith ['>'] (x ++ y) = startsWith ['>'] x := by
   cases x with
